@@ -71,6 +71,24 @@ INFO = {
  ('3','C13','m1'): ("Subject keys an observer by observers.len()+1: subscribe A, subscribe B, unsubscribe A (the older one), subscribe C -> C replaces B", ['C10']),
  ('3','C13','m2'): ("ReplaySubject's post-replay check narrowed to 'a terminal was stored': a late observable().take(k), 1 <= k <= n stored items, completes inside the replay and its inner registration leaks, so the source is never released", []),
  ('3','C14','m1'): ("retry_when clears its (shared, shallow-cloned) predicate when a stream fails: a subscription ends with a rejected error, the same observable is subscribed again and raises an error the predicate would accept", []),
+ ('4','C01','m1'): ("a terminal that arrives while an item is in flight is delivered without being recorded: an ill-formed source calls a terminal from a second thread (or re-entrantly) during a next callback, then a second terminal", ['C19']),
+ ('4','C01','m2'): ("the terminated flag is toggled instead of set: an ill-formed source sends a second terminal (which re-opens the observer) and then anything else", ['C19']),
+ ('4','C06','m1'): ("take completes on n.0 == count instead of >=: more items than count reach take before it has completed (re-entrant or concurrent producers), and the source is never released", ['C11']),
+ ('4','C06','m2'): ("sequence_equal aborts its upstreams only in the 'items differ' branch: the verdict comes from a length mismatch / early terminal while the other source is still live", []),
+ ('4','C07','m1'): ("AsyncFunctionQueue::stop takes the locks in the opposite order to the worker loop: abort on one thread while the worker is between its two acquisitions", ['C08', 'C15']),
+ ('4','C07','m2'): ("sample keeps its state lock across the downstream call (if-let temporary): the subscriber callback feeds the sampled source of the same sample on the same thread", []),
+ ('4','C11','m1'): ("zip: an input that ends with an empty buffer force-completes the zipped stream although the other inputs' buffered items could still pair with items in flight", ['C03']),
+ ('4','C11','m2'): ("StreamController::new_observer reads the serial first and commits it after the registration: two threads register an upstream on the same controller at the same time (flat_map whose outer items come from two threads) and get the same serial - one inner stream replaces the other", []),
+ ('4','C15','m1'): ("debounce registers its on_finalize (scheduler abort) only after source.inner_subscribe: a cold source that terminates synchronously inside subscribe", []),
+ ('4','C15','m2'): ("interval's job returns early without abort() when it finds the subscription already gone: unsubscribe before the worker ran its first check", []),
+ ('4','C16','m1'): ("timeout leaves the previous item's timer armed while the successor is handed on: a slow consumer of item k+1 while the timer of item k is still pending", []),
+ ('4','C16','m2'): ("delay holds an 'order' mutex across its sleep: a second item reaches delay while the first is in flight (two producer threads, or a consumer feeding back on the same thread)", ['C07']),
+ ('4','C17','m1'): ("Subject::error() no longer empties the observer map: the subject fails while observers are registered; their callbacks stay reachable from the subject", []),
+ ('4','C17','m2'): ("scheduler stop() keeps its queue and finalize() keeps the on_finalize slot: closures queued on an aborted scheduler keep the subscriber's callbacks alive", []),
+ ('4','C18','m1'): ("poll registers the waker only once: the future is polled again with a different waker (moved to another task) before the stream ends - the stale waker is woken", []),
+ ('4','C18','m2'): ("the error callback keeps the err lock while it sets done and wakes: poll on another thread takes the locks in the other order on the error path", []),
+ ('4','C19','m1'): ("a terminal accepted while an item check holds the flag is not recorded: a terminal races an item on one shared observer, then a second terminal arrives", ['C01']),
+ ('4','C19','m2'): ("the terminal that loses the race re-opens the gate: complete and error race on one shared observer, later items get through", ['C01']),
  ('3','C14','m2'): ("amb's winner cell hoisted out of the per-subscription closure: a second subscription in which a source in a different position signals first", []),
 }
 
@@ -86,14 +104,18 @@ def rows(path):
     return out
 
 def main():
-    results = {'1': {}, '2': {}, '3': {}}
+    only = sys.argv[sys.argv.index('--round') + 1] if '--round' in sys.argv else None
+    results = {'1': {}, '2': {}, '3': {}, '4': {}}
     for p in ['/var/tmp/results1.tsv', os.path.join(S, '_incoming', 'RESULTS.tsv'), '/var/tmp/results2.tsv']:
         results['1'].update(rows(p))
     results['2'].update(rows(os.path.join(S, '_incoming2', 'RESULTS.tsv')))
     results['3'].update(rows(os.path.join(S, '_incoming3', 'RESULTS.tsv')))
+    results['4'].update(rows(os.path.join(S, '_incoming4', 'RESULTS.tsv')))
     dropped = []
     kept = []
-    for rnd, src in (('1', '_incoming'), ('2', '_incoming2'), ('3', '_incoming3')):
+    for rnd, src in (('1', '_incoming'), ('2', '_incoming2'), ('3', '_incoming3'), ('4', '_incoming4')):
+        if only is not None and rnd != only:
+            continue
         base = os.path.join(S, src)
         if not os.path.isdir(base):
             continue
@@ -107,7 +129,7 @@ def main():
                     continue
                 key = f'{prop}/{m}'
                 r = results[rnd].get(key)
-                # m1,m2 = round 1; m3,m4 = round 2; m5,m6 = round 3
+                # m1,m2 = round 1; m3,m4 = round 2; m5,m6 = round 3; m7,m8 = round 4
                 name = f'{prop}-m{int(m[1:]) + 2 * (int(rnd) - 1)}'
                 if r is None:
                     dropped.append((name, 'not re-confirmed yet'))
@@ -155,7 +177,17 @@ def main():
                 }
                 json.dump(meta, open(os.path.join(dst, 'meta.json'), 'w'), indent=1)
                 kept.append(name)
-    with open(os.path.join(S, 'DROPPED.md'), 'w') as f:
+    old = []
+    dp = os.path.join(S, 'DROPPED.md')
+    if only is not None and os.path.exists(dp):
+        # a single round is (re)processed: keep the other rounds' entries
+        names = {n for n, _ in dropped}
+        for l in open(dp):
+            mm = re.match(r'^- \*\*(.+?)\*\*: (.*)$', l.rstrip('\n'))
+            if mm and mm.group(1) not in names:
+                old.append((mm.group(1), mm.group(2)))
+    dropped = old + dropped
+    with open(dp, 'w') as f:
         f.write('# Seeded changes that were not kept\n\n')
         for n, why in dropped:
             f.write(f'- **{n}**: {why}\n')
